@@ -382,6 +382,12 @@ func sameValue(a, b ssa.Value) bool {
 	if ok1 && ok2 && ua.Op == token.MUL && ub.Op == token.MUL {
 		return sameAddr(ua.X, ub.X)
 	}
+	// the same field of the same struct value, read twice
+	fa, ok3 := a.(*ssa.Field)
+	fb, ok4 := b.(*ssa.Field)
+	if ok3 && ok4 && fa.Field == fb.Field {
+		return fa.X == fb.X || sameValue(fa.X, fb.X)
+	}
 	return false
 }
 
